@@ -16,7 +16,8 @@ From SZ Require Import DF.Window.
 Import ListNotations.
 
 Definition window_ops : pd_ops :=
-  mk_pd_ops frame (fun f => zlen f) psize psum psumsq pcount (fun _ => []).
+  mk_pd_ops frame (fun f => zlen f) psize psum psumsq pcount (fun _ => [])
+            (fun n f => firstn (Z.to_nat n) f) (fun n f => skipn (Z.to_nat n) f).
 
 Definition f2onum (r : fnum) : onum := match r with FNum q => ONum q | FNan => ONan | FInf => OInf end.
 
